@@ -219,6 +219,24 @@ def run_parent(prop, tier, seed, nshards, clause_filter, scale):
             # witness fails but differently: report as a violation
             pass
 
+    # replay tier: the shrunk inputs of defects that were repaired (known_findings.json: "fixed") are evaluated on every
+    # run, without Hypothesis; a fixed entry suppresses nothing - if the input fails again it is a violation
+    regression_failures, n_regressions = [], 0
+    rdir = os.path.join(VERIF, "regressions", prop)
+    for fn in sorted(os.listdir(rdir)) if os.path.isdir(rdir) and not clause_filter else []:
+        if not fn.endswith(".json"):
+            continue
+        rec = json.load(open(os.path.join(rdir, fn)))
+        if rec.get("clause") not in clauses:
+            continue
+        n_regressions += 1
+        st = harness.ClauseStats(rec["clause"])
+        exc = harness.evaluate(clauses[rec["clause"]], rec["case"], st, [])
+        if exc is not None and not any(k.matches(rec["clause"], rec["case"], exc) for k in known):
+            regression_failures.append({"clause": rec["clause"], "replay": os.path.join(rdir, fn), "reproduced": True,
+                                        "signature": "regression",
+                                        "message": "saved input of a repaired defect fails again: %s" % (str(exc)[:300],)})
+
     procs = []
     for i in range(nshards):
         out = os.path.join(tmpd, "shard%d.json" % i)
@@ -315,7 +333,7 @@ def run_parent(prop, tier, seed, nshards, clause_filter, scale):
             m["exhaustive"] = m["exhaustive"] and c["exhaustive"]
             m["wall_s"] = max(m["wall_s"], c["wall_s"])
 
-    failures = list(crash_failures)
+    failures = list(regression_failures) + list(crash_failures)
     flaky = []
     for m in merged.values():
         for f in m["failures"]:
@@ -352,6 +370,7 @@ def run_parent(prop, tier, seed, nshards, clause_filter, scale):
             "exhaustive_subdomains": [c["clause"] for c in clause_out if c["exhaustive"]],
             "shards": nshards,
             "known_findings_reproduced": known_lines,
+            "regression_inputs_replayed": n_regressions,
         },
         "assumptions": getattr(mod, "ASSUMPTIONS", []),
         "wall_s": round(wall, 2),
